@@ -192,12 +192,20 @@ func (conn *Conn) SetNoCopy(noCopy bool) {
 
 func (conn *Conn) write(call *Call) {
 	if conn.writeSched != nil {
-		conn.writeSched.Schedule(func() {
-			conn.send(call)
-		})
-	} else {
-		conn.send(call)
+		// The reader closes the write queue when the connection ends. Scheduling on it
+		// must not overlap that Close (the queue's worker accounting does not allow it),
+		// so nothing is queued once shutdown is set; send then fails the call at once.
+		conn.mutex.Lock()
+		if !conn.shutdown {
+			conn.writeSched.Schedule(func() {
+				conn.send(call)
+			})
+			conn.mutex.Unlock()
+			return
+		}
+		conn.mutex.Unlock()
 	}
+	conn.send(call)
 }
 
 func (conn *Conn) send(call *Call) {
